@@ -32,7 +32,7 @@ ASSUMPTIONS = [
 
 @st.composite
 def c10_case(draw):
-    a = draw(gen.case(max_nodes=6, rare=True))
+    a = draw(gen.case(max_nodes=6, rare=True, rich_sweeps="numpy"))
     others = draw(st.lists(gen.case(max_nodes=3, sweeps=True, rare=False), max_size=3))
     others_l = [{"case": o, "traced": draw(st.booleans())} for o in others]
     # a twin of A whose sweep expressions differ (same generated class names, different meaning)
@@ -43,10 +43,11 @@ def c10_case(draw):
                 n["sweep"]["params"] = {k: f"({e}) + 10.0" for k, e in n["sweep"]["params"].items()}
         others_l.insert(0, {"case": twin, "traced": True})
     return {"a": a, "detail": draw(st.sampled_from(["hash", "repr", "context", "all", "hash,repr,context"])),
-            "others": others_l, "reuse": draw(st.booleans()), "mode": draw(st.sampled_from(["file", "file", "dir"])),
+            "others": others_l, "reuse": draw(st.booleans()), "mode": draw(st.sampled_from(["file", "dir", "file", "dir_dotted"])),
             "shared_orchestrator": draw(st.booleans()), "iterator": draw(st.integers(0, 5)) == 0,
             "nonfinite": draw(st.sampled_from([None] * 7 + ["inf", "nan", "-inf"])),
-            "odd": draw(st.sampled_from([None] * 8 + observe.ODD_NAMES)), "fresh_process": draw(st.sampled_from([False] * 11 + [True]))}
+            "odd": draw(st.sampled_from([None] * 8 + observe.ODD_NAMES)),
+            "raise_kind": draw(st.sampled_from([None] * 9 + sorted(M.EXC_NAMES))), "fresh_process": draw(st.sampled_from([False] * 11 + [True]))}
 
 
 def _files() -> Dict[str, str]:
@@ -108,6 +109,13 @@ def check_case(case: Dict[str, Any], col: Collector, workroot: str = ".") -> Non
         a = _with_nonfinite(a, case["nonfinite"])
     elif case.get("odd"):
         a = _with_odd(a, case["odd"])
+    elif case.get("raise_kind"):
+        # a node raises a pre-built exception object (empty args, tuple args, BaseException subclasses ...)
+        m0 = M.run(a)
+        spots = [e["index"] for e in m0["log"] if M.kind_of(e["in"]) == "Float"] + ([len(a["nodes"])] if m0["ok"] and M.kind_of(m0["data"]) == "Float" else [])
+        if spots:
+            a = copy.deepcopy(a)
+            a["nodes"].insert(spots[len(spots) // 2], {"p": "VRaiseOp", "params": {"kind": case["raise_kind"]}})
     detail = case.get("detail", "hash")
     _files()
     ref = observe.run_real(copy.deepcopy(a))
@@ -299,7 +307,7 @@ def valid(case: Any) -> bool:
     from .c01 import valid as v1
 
     try:
-        return v1(case["a"]) and all(v1(o["case"]) for o in case.get("others", [])) and case.get("mode", "file") in ("file", "dir")
+        return v1(case["a"]) and all(v1(o["case"]) for o in case.get("others", [])) and case.get("mode", "file") in ("file", "dir", "dir_dotted")
     except Exception:
         return False
 
